@@ -8,6 +8,7 @@ Pre(p, S) == { p \o x : x \in S }
 RuleOf(j) == IF j.name # "" THEN Protease(j.name)
              ELSE IF j.style = "zero" THEN ZeroRule(SeqToSet(j.before), SeqToSet(j.beforeNot), SeqToSet(j.after), SeqToSet(j.afterNot), SeqToSet(j.notAfter))
              ELSE IF j.style = "consuming" THEN [style |-> "consuming", lit |-> [ i \in 1..Len(j.lit) |-> SeqToSet(j.lit[i]) ]]
+             ELSE IF j.style = "mixed" THEN [style |-> "mixed", lit |-> <<SeqToSet(j.lit[1])>>, after |-> SeqToSet(j.after)]
              ELSE [style |-> j.style]
 
 PeptideFields == {"seq", "internal", "nterm", "cterm", "static", "isotope", "intervals"}
